@@ -35,6 +35,19 @@ PROPS = {
         phases=[P(kind="fuzz", bin="c02_build", runs_quick=48000, runs_thorough=8000000, workers_quick=8, workers_thorough=16, max_len=4096, rss=6000, timeout=60)],
         floor_quick=4000, floor_thorough=300000,
     ),
+    "C03": P(
+        title="true sender stamped; unique names unique forever",
+        level="exploration",
+        technique="stateful model-based testing with raw-socket clients: libFuzzer-generated histories of forged-header messages, repeated/missing Hello and disconnects on an in-process bus; every frame received by clients, an eavesdropper and a monitor is checked against the stamping invariants and the routing model",
+        level_text=("Exploration: raw clients write messages of all four types (unicast to unique/unowned names and to the bus, broadcast, destination-less) whose headers carry a forged SENDER (another "
+                    "client, the bus name, a never-issued name), unknown field codes 11..255 with generated variant payloads and CONTAINER_INSTANCE, in shuffled field order; clients say Hello late, twice "
+                    "or never, and close. Every frame any ordinary client receives must equal the written message with unknown fields and container instance stripped and SENDER = the writer's unique "
+                    "name; frames from the bus carry org.freedesktop.DBus; the monitor's copies are checked by body token; unique names are checked against every name ever issued in the process."),
+        level_note="Permissive policy only; the name counter is not driven to wrap-around (hook H4 not built); trusts busmodel.cc/wire.cc. One open known finding (destination-less calls are answered without SENDER).",
+        rule=("case = history decoded from fuzzer input. Non-trivial = >=2 registered clients and >=1 delivered message that carried a forged SENDER, unknown field or CONTAINER_INSTANCE; distinct = FNV-1a of the log with unique names renamed."),
+        phases=[P(kind="fuzz", bin="c03_sender", runs_quick=14000, runs_thorough=3000000, workers_quick=12, workers_thorough=16, max_len=1024, rss=4000, timeout=120, detect_leaks=0)],
+        floor_quick=800, floor_thorough=50000,
+    ),
     "C04": P(
         title="name ownership state machine",
         level="exploration",
